@@ -107,6 +107,7 @@ VARIANTS = {
             "-g",
             "-fopenmp",
             "-fsanitize=thread",
+            "-Ddgemm_=sim_dgemm_",
             "-Dmalloc=sim_malloc",
             "-Dcalloc=sim_calloc",
             "-Dfree=sim_free",
@@ -228,7 +229,7 @@ def build(variant="plain", repo=None, verbose=False):
                 pass
         if v["sim"]:
             objs = sorted(glob.glob(os.path.join(out, "obj", "sim__*.o")))
-            _run(["gcc", "-shared", "-o", os.path.join(out, "libsimgomp.so")] + objs + ["-lm", "-ldl"])
+            _run(["gcc", "-shared", "-o", os.path.join(out, "libsimgomp.so")] + objs + ["-lopenblas", "-lm", "-ldl"])
         for lib in ORDER:
             spec = LIBS[lib]
             objs = sorted(glob.glob(os.path.join(out, "obj", lib + "__*.o")))
